@@ -99,6 +99,8 @@ def cases(tier, seed):
     for n in (1, 2, 3):
         for lst in itertools.product(kinds, repeat=n):
             out.append({'k': 'list', 'l': list(lst)})
+    for a in ('cond-int-1', 'cond-true', 'cond-int-0', 'cond-false', 'watch-none', 'watch-int', 'log-int'):
+        out.append({'k': 'oddargs', 'arg': a})
     for ln in ('text', 'none', 'fraction', 'list', 'float'):
         for form in ('line', 'nameless-method', 'method-stage'):
             out.append({'k': 'badline', 'line': ln, 'form': form})
@@ -392,9 +394,52 @@ def check_badline(ctx, desc):
                       f'tracepoint and a line tracepoint: these acted {[g for g in got if g.startswith("good")]}, expected {want_good}', desc)
 
 
+ODD_ARGS = {'cond-int-1': {'condition': 1}, 'cond-true': {'condition': True}, 'cond-int-0': {'condition': 0}, 'cond-false': {'condition': False},
+            'watch-none': {'watches': [None]}, 'watch-int': {'watches': [5]}, 'log-int': {'log_msg': 7}}
+
+
+def check_oddargs(ctx, desc):
+    """register_tracepoint with a condition, a watch or a log message that is no text (python values where the documentation says text):
+    a condition that is true fires, one that is false does not, a watch that is no expression is an error result for that watch - and in
+    every case the tracepoint next to it goes on acting."""
+    from deep.api.tracepoint.trigger import build_trigger
+    odd = ODD_ARGS[desc['arg']]
+    agent = rig.Agent()
+    good = build_trigger('good-l', 'c11prog.py', L2, {'fire_count': '-1', 'fire_period': '0'}, ['v'], [])
+    args = {'fire_count': '-1', 'fire_period': '0'}
+    args.update({k: v for k, v in odd.items() if k != 'watches'})
+    ctx.case()
+    ctx.nt(('oddargs', desc['arg']))
+    try:
+        t = build_trigger('odd', 'c11prog.py', L1, args, list(odd.get('watches', ['v'])), [])
+    except ValueError:
+        t = None        # refused: fine
+    except BaseException as e:
+        ctx.violation('C11/oddargs/registration-raised/' + type(e).__name__, f'{odd}: {e!r}', desc)
+        return
+    agent.install([good] + ([t] if t is not None else []))
+    per, run = observe(agent)
+    got = sorted(s.tracepoint.id for p_ in per for s in p_['snaps'])
+    ctx.outcome(('oddargs', desc['arg'], tuple(got)))
+    if run.escaped or run.exc is not None:
+        ctx.violation('C11/oddargs/handler-raised', f'{odd}: {run.escaped[:1] or run.exc!r}', desc)
+        return
+    if got.count('good-l') != 2:
+        ctx.violation('C11/oddargs/valid-tracepoint-affected', f'{odd}: the tracepoint next to it acted {got.count("good-l")} times, expected 2', desc)
+        return
+    if t is None:
+        return
+    want = 0 if desc['arg'] in ('cond-int-0', 'cond-false') else 2
+    if got.count('odd') != want:
+        ctx.violation(f'C11/oddargs/{desc["arg"]}', f'tracepoint registered with {odd}: it collected {got.count("odd")} times, expected {want} '
+                      f'(agent log: {[r[2][:90] for r in rig.SINK.records[-2:]]})', desc)
+
+
 def run_case(ctx, desc):
     if desc['k'] == 'list':
         return check_list(ctx, desc)
+    if desc['k'] == 'oddargs':
+        return check_oddargs(ctx, desc)
     if desc['k'] == 'badline':
         return check_badline(ctx, desc)
     if desc['k'] == 'one':
